@@ -10,7 +10,7 @@ Definition put_on_recordless (s : st) (o : op) : bool :=
   match o with Put d _ _ => negb (has_rec s d) && memN d (loc s) | _ => false end.
 Lemma refused_unchanged_raw : forall s o s' e, put_on_recordless s o = false -> step s o = (s', Err e) -> s' = s.
 Proof.
-  intros s o s' e G H. destruct o; simpl in H, G;
+  intros s o s' e G H. destruct o; simpl in H, G; try unfold xfer in H;
   repeat match type of H with
   | context [match ?x with _ => _ end] => destruct x eqn:?; simpl in H
   end; simpl in G; try congruence; try (inversion H; reflexivity).
@@ -230,6 +230,24 @@ Proof.
   - simpl. intros [<- | [<- | H]] H2; [rewrite (B d1 H2) in A1; discriminate | rewrite (B d2 H2) in A2; discriminate | exact (D x H H2)].
 Qed.
 
+(* transfer_from of one dataset: skipped when the records table has the id, else a fresh location row and records row *)
+Lemma wf_xfer : forall s d r k, wf s -> wf (fst (xfer s d r k)).
+Proof.
+  intros s d r k W. unfold xfer. destruct (negb _); simpl; [exact W |].
+  destruct (has_rec s d) eqn:Hn; simpl; [eapply wf_same_datastore; [| | | exact W]; reflexivity |].
+  destruct W as [A B C D].
+  set (s' := mk _ _ _ _ _ _ _ _ _).
+  assert (R : forall x, has_rec s' x = true <-> x = d \/ has_rec s x = true).
+  { intro x. unfold has_rec, s'. simpl. rewrite orb_true_iff, N.eqb_eq. split; intros [H | H]; auto. }
+  constructor; intro x.
+  - unfold s' at 1. simpl. rewrite addN_In. intros [-> | H]; apply R; [left; reflexivity | right; exact (A x H)].
+  - intro H. change (In x (trash s)) in H. apply R. right. exact (B x H).
+  - rewrite R. unfold s'. simpl. rewrite addN_In. intros [-> | H]; [left; left; reflexivity |].
+    destruct (C x H) as [H1 | H1]; [left; right; exact H1 | right; exact H1].
+  - unfold s' at 1. simpl. rewrite addN_In. intros [-> | H] H2; [| exact (D x H H2)].
+    change (In d (trash s)) in H2. rewrite (B d H2) in Hn. discriminate.
+Qed.
+
 Lemma remove_run_datastore : forall s r s', remove_run s r = inl s' -> loc s' = loc s /\ trash s' = trash s /\ recs s' = recs s /\ files s' = files s.
 Proof.
   intros s r s' H. unfold remove_run in H.
@@ -311,6 +329,8 @@ Proof.
     apply orb_false_iff in E. destruct E as [E1 E2]. apply orb_false_iff in E1, E2. destruct E1 as [A1 B1]. destruct E2 as [A2 B2].
     apply N.eqb_neq in E0. apply memN_false in B1, B2.
     apply (wf_ingest s d1 d2 (r, k)); assumption.
+  - (* Xfer *) assert (G : wf (fst (xfer s d r k))) by (apply wf_xfer; exact W).
+    destruct (ctype s r) as [[] |]; simpl; try exact W; exact G.
 Qed.
 
 (* all histories whose forget-steps are safe *)
